@@ -81,7 +81,10 @@ def Wt(P, x, t):
     b = P.cdf(t - ax) - P.cdf(-t - ax)
     if b < EPS:
         return 1.0
-    vv = Vt(P, x, t)
+    # the paper's W~ = band term + V~^2 with the exact V~ = a / b (not the value V~'s own 1e-5 cut-off substitutes:
+    # mixing the two takes W~ out of [0, 1], the defect repaired in /repo 28b9bd6)
+    a = P.pdf(-t - ax) - P.pdf(t - ax)
+    vv = a / b
     return ((t - ax) * P.pdf(t - ax) + (t + ax) * P.pdf(-t - ax)) / b + vv * vv
 
 
